@@ -16,7 +16,7 @@ from .. import engine, common
 
 ID = "C03"
 
-DEPS = ["impl", "wimpl", "gi", "gw", "vg", "vi", "conc", "vconc", "nodeps"]
+DEPS = ["impl", "wimpl", "gi", "gil", "gw", "vg", "vi", "conc", "vconc", "nodeps"]   # gil: like gi, but `D` is declared LAST (after const parameters)
 QUALS = ["", "async", "unsafe", 'extern "C"', 'unsafe extern "C"', "async unsafe"]
 OPTS = ["", "mock", "mockall", "?Send"]
 # extra parameter symbols: (declaration, generic params, where predicates, argument expr, pointer type, needs)
@@ -38,6 +38,8 @@ EXTRA = {
     # a where-predicate that names 'static / a for<>-bound lifetime BEFORE a lifetime of the fn
     "ws": dict(decl="r: &'b X, v: V", lts=["'b"], gen=["V"], where=["V: 'static + Lab<'b> + ::core::marker::Send"], arg="&x, 6i64", ptr="&'b X, i64", ref=True, no_ptr=True),
     "wh": dict(decl="r: &'b X, v: V", lts=["'b"], gen=["V: ::core::marker::Send"], where=["for<'z> &'z V: Lab<'b>"], arg="&x, 6i64", ptr="&'b X, i64", ref=True, no_ptr=True),
+    # a where-predicate that names a fn lifetime inside the ARGUMENTS of a trait bound
+    "wf": dict(decl="r: &'b X, p: P", lts=["'b"], gen=["P"], where=["P: Fn(&'b X) -> i64 + ::core::marker::Send"], arg="&x, xnum", ptr="&'b X, fn(&'b X) -> i64", ref=True, no_ptr=True),
     # two named lifetimes related by an outlives predicate: in the where clause / inline
     "lw": dict(decl="r: &'b X, r2: &'c X", lts=["'b", "'c"], where=["'c: 'b"], arg="&x, &x", ptr="&'b X, &'c X", ref=True, no_ptr=True),
     "li": dict(decl="r: &'b X, r2: &'c X", lts=["'b", "'c: 'b"], arg="&x, &x", ptr="&'b X, &'c X", ref=True, no_ptr=True),
@@ -74,17 +76,19 @@ def enumerate_states(tier):
             continue
         if R.get("needs") and R["needs"] not in w:
             continue
-        if len(set(w)) != len(w) or len([x for x in w if x in ("re", "rn", "lw", "li", "ws", "wh")]) > 1:
+        if len(set(w)) != len(w) or len([x for x in w if x in ("re", "rn", "lw", "li", "ws", "wh", "wf")]) > 1:
             continue            # the same symbol twice (or two symbols sharing `r` / `'b`) would declare a name twice
         if R.get("elided") and any(EXTRA[x].get("ref") for x in w):
             continue            # elided output with two reference inputs is not Rust
         if o == "?Send" and "async" not in q:
             continue
+        if tier != "thorough" and deps == "gil" and not set(w) <= {"cn", "ti", "i"}:
+            continue            # the declaration position of D only interacts with the other generic parameters
         if o == "mock" and not feature:
             continue            # mock_api only switches unimock on with the crate feature; off it is covered by C04/C10
         if tier != "thorough" and feature and o in ("", "?Send") and q not in ("", "async"):
             continue
-        if tier != "thorough" and any(x in ("dp", "mb", "wl", "lw", "li", "ws", "wh", "dy", "fp", "cl", "bx", "sl", "tu") for x in w) and (o != "" or deps not in ("impl", "nodeps", "conc", "gi")):
+        if tier != "thorough" and any(x in ("dp", "mb", "wl", "lw", "li", "ws", "wh", "wf", "dy", "fp", "cl", "bx", "sl", "tu") for x in w) and (o != "" or deps not in ("impl", "nodeps", "conc", "gi", "gil")):
             continue            # the feature only matters through the mock options
         key = "g_%s_%s_%s_%s_%s_%s" % (deps, "_".join(w) or "0", {"": "s", "async": "a", "unsafe": "u", 'extern "C"': "e", 'unsafe extern "C"': "ue", "async unsafe": "au"}[q],
                                        r, {"": "p", "mock": "m", "mockall": "ma", "?Send": "ms"}[o], "fon" if feature else "foff")
@@ -93,7 +97,7 @@ def enumerate_states(tier):
         if deps not in ("conc", "vconc") and (tier == "thorough" or (o in ("", "?Send") and not feature)):
             states.append(dict(key=key.replace("g_", "gm_", 1), deps=deps, word=list(w), qual=q, ret=r, opt=o, feature=feature, cont="mod"))
             # .. and next to a twin with the very same signature, generic parameter names included
-            if any(EXTRA[x].get("gen") for x in w) or deps in ("gi", "gw", "vg"):
+            if any(EXTRA[x].get("gen") for x in w) or deps in ("gi", "gil", "gw", "vg"):
                 states.append(dict(key=key.replace("g_", "gt_", 1), deps=deps, word=list(w), qual=q, ret=r, opt=o, feature=feature, cont="twin"))
     return states, len(states), dict(deps=DEPS, extra_params=list(EXTRA), word_len=maxlen, quals=QUALS, returns=list(RETS), options=OPTS)
 
@@ -111,6 +115,8 @@ def pieces(s):
         dparam = "_: &impl Dep"        # the dependency is not used: wildcard pattern in the deps position
     elif deps == "gi":
         gens.append("D: Dep")
+        dparam = "deps: &%sD" % la
+    elif deps == "gil":
         dparam = "deps: &%sD" % la
     elif deps == "gw":
         gens.append("D")
@@ -133,7 +139,7 @@ def pieces(s):
     # generic parameter order: lifetimes, types, consts
     consts = [g for g in gens if g.startswith("const ")]
     types = [g for g in gens if not g.startswith("const ")]
-    generics = lts + types + consts
+    generics = lts + types + consts + (["D: Dep"] if deps == "gil" else [])
     params = [p for p in [dparam] + [EXTRA[x]["decl"] for x in w] if p]
     return dict(generics=generics, where=where, params=params)
 
@@ -146,7 +152,7 @@ def render(s):
     opts = ["pub Tr"] + (["no_deps"] if deps == "nodeps" else []) + \
         {"": [], "mock": ["mock_api = TrMock"], "mockall": ["mockall"], "?Send": ["?Send"]}[s["opt"]]
     L = ["mod %s {" % key, "    use super::rt;",
-         "    #[derive(Debug)] pub struct X(pub i64);", "    pub fn fpid(x: i64) -> i64 { x }",
+         "    #[derive(Debug)] pub struct X(pub i64);", "    pub fn fpid(x: i64) -> i64 { x }", "    pub fn xnum(x: &X) -> i64 { x.0 }",
          "    pub trait Bound { fn b(&self) -> i64; } impl Bound for i64 { fn b(&self) -> i64 { *self } }",
          "    pub trait Lab<'l> {} impl<'l> Lab<'l> for i64 {} impl<'l, 'z> Lab<'l> for &'z i64 {}",
          "    pub trait Dep { fn num(&self) -> &i64; }",
